@@ -20,6 +20,11 @@ FIXES = [
     ('833c1d5', ['C11', 'C02']), ('ff97632', ['C11', 'C12']), ('fd7eaa7', ['C12']), ('b7f6d7e', ['C13']),
     ('e4e8f61', ['C17', 'C16']), ('f09c9e1', ['C19']), ('a5ca629', ['C20']), ('33f82c3', ['C20']),
     ('d288eda', ['C17']),
+    ('ddee3fa', ['C03']), ('573ac1a', ['C03']), ('53363e5', ['C03']), ('194f6ce', ['C03']), ('b520a1c', ['C03']),
+    ('0ae0870', ['C03']), ('397c88e', ['C03']), ('f2259bd', ['C03']), ('be0adc5', ['C03', 'C01']),
+    ('fbc0946', ['C03']), ('f6c0412', ['C03']), ('753f3a4', ['C03']), ('479eebc', ['C03']),
+    ('7f2b980', ['C01', 'C03']), ('8d3c092', ['C03']), ('5d445c8', ['C03']), ('9f8d30f', ['C03']),
+    ('20f0a5d', ['C03']), ('ad921fb', ['C03']),
 ]
 
 
